@@ -621,6 +621,9 @@ def units(tier):
     from props import c14_merge as MG
     from props.common import wrap as _wrap
     _wrap(us, "C10.merge_redox.removes_exactly_the_conflicting_entries", MG.unit_merge_redox, "C10")
+    from props import c10_more as MO
+    _wrap(us, "C10.read_raw.list_options_clear_their_vector_once", MO.unit_clear_once)
+    _wrap(us, "C10.do_run.dump_string_uses_the_run's_dump_request", MO.unit_dump_string_request)
     return us
 
 
